@@ -771,7 +771,9 @@ func detectExeType(src []byte, codeStart, codeEnd *int) byte {
 		}
 
 		// ARM
-		if (i & 3) != 0 {
+		if (i&3) != 0 || i+4 > len(src) {
+			// Not aligned, or the X86 prefix bytes skipped above moved the
+			// cursor too close to the end of the scan window
 			continue
 		}
 
